@@ -271,8 +271,9 @@ class AssumeReturn:
 
 
 class CutPolicy(Policy):
-    def __init__(self, cuts=(), opaque=(), summarize=None, assume=()):
+    def __init__(self, cuts=(), opaque=(), summarize=None, assume=(), nonempty=None):
         self.assume = list(assume)
+        self.nonempty = nonempty      # regex over origins of collections assumed non-empty (their first next() is Some)
         self.cuts = list(cuts)
         self.opaque = frozenset(opaque)
         if summarize is not None:
@@ -477,7 +478,12 @@ class World:
         if extra_args:
             for k, v in extra_args.items():
                 args[k] = v
-        ret, st = I.run_entry(b.id, args)
+        import sem as _sem
+        _sem._NONEMPTY = getattr(policy, "nonempty", None)
+        try:
+            ret, st = I.run_entry(b.id, args)
+        finally:
+            _sem._NONEMPTY = None
         self.stats["analyses"] += 1
         self.stats["fn_instances"] += I.fn_instances
         self.stats["block_visits"] += I.block_visits
